@@ -46,6 +46,17 @@ check("C02", "exploration",
       "bounded-exhaustive tree enumeration on the real parser against a reference operator table (render/parse round trip)",
       "DESIGN.md §3/C02")
 
+check("C03", "exploration",
+      "Every expression tree of the C02 enumeration that the library itself accepts (parses and type checks without "
+      "diagnostics), a grid of double/int literals, and 59 query forms x boolean/numeric operand pools are printed with the "
+      "library's str(), re-parsed by the same parser in the same scope and compared: no throw, no diagnostics, identical "
+      "tree (kinds, order, symbols, constants bit-exact), identical query kind, identical second str().",
+      "The text of a control-synthesis query is taken to be the prefix recorded in PropInfo::type plus str(intermediate), as "
+      "TigaPropertyBuilder strips the wrapper on purpose. Trusts the harness s-expression as tree identity. Small scope: the "
+      "tree shapes and operand pools listed in the evidence.",
+      "bounded-exhaustive tree/query-form enumeration on the real printer+parser (print/parse round trip oracle)",
+      "DESIGN.md §3/C03")
+
 check("C10", "exploration",
       "Every boolean formula tree up to depth 3 over the atom/connective alphabet, as guard and as invariant, is type "
       "checked by the real library and compared with a reference convexity classifier transcribed from the statement; "
